@@ -423,7 +423,10 @@ func (p *Prog) knownNonNil(v ssa.Value, b *ssa.BasicBlock) bool {
 		return true
 	case *ssa.Call:
 		switch p.CalleeName(&x.Call) {
-		case "fmt.Errorf", "errors.New", "context.Cause", "ltx.NewPosMismatchError":
+		case "fmt.Errorf", "errors.New", "ltx.NewPosMismatchError", "litefs.contextErr":
+			// litefs.contextErr: non-nil by the Context contract when called after Done() was
+			// closed (decided separately: C12.blocking/contextErr). context.Cause is NOT in this
+			// list: for contexts that do not track a cause it returns nil even when done.
 			return true
 		}
 	case *ssa.UnOp:
